@@ -100,6 +100,60 @@ CLAIMS["C16"] = dict(
    text="Decides the structural necessary conditions of 'the selected variant never changes the result': both AES libraries and both GHASH libraries export the same entry points with the same prototypes and accept the same key lengths; use_aesni/use_clmul and library availability change neither outcome kind nor exception class and a handle is released by the library that created it; the accelerated code makes no alignment assumption about caller buffers; every Integer back-end matches one reference row by row (so they agree with each other) for value, result type and exception class. Bit-for-bit equality of the AES round functions / GHASH multipliers and of libgmp's arithmetic is not decided.",
    note="One recorded finding: IntegerGMP refuses left shifts >= 65536 bits that the other back-ends compute (known_findings.json).")
 
+# ---------------------------------------------------------------------------------------------------------------
+# What the build added on top of the first claim texts (C evaluator tables, newer Python rules).  Kept as additions so
+# that each claim still reads "decided slice ... not decided".
+CEVAL = "abstract interpretation of the C translation units over clang's JSON AST (vstat/ceval.py: typed wrapping integers, bounds-checked byte memory, XOR-linear symbolic bytes, uninterpreted injective primitives)"
+EXTRA = {
+ "C01": ("; event-order rule for MAC vs cipher under output=; " + CEVAL + " for Poly1305 on limb-boundary tables",
+         " Also decided: the native Poly1305 (src/poly1305.c) equals RFC 8439 on a table of accumulators/blocks at every limb and 2^130-5 boundary; OCB's pending associated data is authenticated; CMAC's last-block rule."),
+ "C02": ("; " + CEVAL + ": raw_ctr/cfb/ofb/cbc/ecb.c compared as symbolic terms with SP 800-38A under an uninterpreted block cipher, chacha20.c on seek/encrypt histories, published vectors for the block primitives (K-kat)",
+         " Also decided: the five native mode loops compute SP 800-38A for every key and data value on 1000+ (length, segment, counter layout, chunking) geometries and refuse partial blocks; chacha20.c releases exactly the RFC 8439 key stream of the caller's position on histories around the ends of the counter; AES/DES/3DES/CAST/Blowfish/ARC2/ARC4 reproduce their published vectors (this last part is a vector check, named K-kat, not a proof)."),
+ "C03": ("; " + CEVAL + ": Keccak sponge bookkeeping (absorb/pad/squeeze, rate boundaries) and Merkle-Damgard padding/length counters/IVs with the permutation / compression function uninterpreted; KangarooTwelve tree bookkeeping rows",
+         " Also decided: src/keccak.c pads, absorbs and squeezes at every rate boundary as FIPS 202 (permutation uninterpreted); MD5/SHA-1/SHA-2/RIPEMD-160 pad and count bits as their standards at the block boundaries, with IVs recomputed from the primes; KangarooTwelve's chunking/length_encode/domain bytes on both sides of the 8192-byte limit."),
+ "C04": ("; DER signature reader/writer rows against the checker's encoder; PSS EM-length rows; " + CEVAL + " for the Ed25519/Ed448 point layer",
+         " Also decided: DER-encoded (r, s) are written and read strictly at the sign-byte boundaries; the PSS emLen/salt inequalities of RFC 8017 9.1; ed25519.c / ed448.c point decoding and group law on the case table incl. torsion points."),
+ "C06": ("; " + CEVAL + ": ec_ws.c (group-law case table for P-224/256/384/521, scalar dispatch incl. generator tables, blinded scalars), ed25519.c / ed448.c (field layer, addition/doubling/scalar on case tables incl. torsion points), curve25519.c / curve448.c (Montgomery ladders on all adjacent-bit patterns incl. low-order points) against the checker's affine group law / RFC 7748 ladder",
+         " Also decided: on the enumerated case tables the native Weierstrass, Edwards and Montgomery code returns the mathematical result, including neutral-element, doubling, inverse, torsion and over-long-scalar cases."),
+ "C07": ("; " + CEVAL + ": constant-time helpers on their whole byte domain, pkcs1_decode/oaep_decode on every single defect of an encoded message",
+         " Also decided: the branch-free accept/reject logic of src/pkcs1_decode.c rejects every single-defect encoded message of RFC 8017 7.1.2/7.2.2 and accepts the well-formed ones, for several geometries; several simultaneous defects are not enumerated."),
+ "C08": ("; fixed-width encoders and PEM/passphrase siblings", " Also decided: fixed-width public encodings (RFC 7748/8032, SEC 1) keep leading zero bytes; PEM line/padding rows; every import_key passes the passphrase encoded the same way."),
+ "C09": ("; " + CEVAL + ": every chunking / in-place variant of the native mode loops, the Keccak sponge and the Merkle-Damgard buffers equals the one-shot result (SEG-c)",
+         " Also decided (C side): for the five mode loops, keccak_absorb/squeeze and the MD update functions, every partition of the input of a representative family, in place or not, gives the one-shot result as symbolic terms."),
+ "C10": ("; OCB segment rule; copy() keeps every typestate flag (T-copy, reviewed table); a failing verify() leaves the object in the state of a successful one; " + CEVAL + " for the keccak state machine",
+         " Also decided: keccak.c refuses absorb after squeeze and copies whole states; copy() of SHAKE/cSHAKE/TupleHash/KMAC/K12 preserves the squeezing flag."),
+ "C11": ("; " + CEVAL + ": counter block i = base + i mod 256^len for 700+ layouts with wrap refused (raw_ctr.c), chacha20.c counter carry / end of key stream / refused seeks",
+         " Also decided (C side): the native CTR counter blocks are pairwise distinct up to the wrap, which is refused; ChaCha20 never releases key stream after its counter ran out until a successful seek, and seek() refuses positions outside the stream (Python and C)."),
+ "C12": ("; " + CEVAL + ": the six native pbkdf2_hmac_assist loops = RFC 8018 F() with an uninterpreted hash",
+         " Also decided: the native PBKDF2 fast paths (all six hash templates) build F() exactly, for every password/salt value; the EKSBlowfish key-length domain."),
+ "C13": ("; OID/OpenSSH value tables; PBES2 structure rows", " Also decided: OID first-octet arithmetic, OpenSSH string/mpint readers and PBES2 parameter structures accept exactly the well-formed encodings of a value table."),
+ "C14": ("; " + CEVAL + ": bignum.c on all small vectors, mont.c on boundary operands, modexp_utils.c windows and scatter/gather, monty_pow end to end on small moduli; Crypto.Util.number helpers on operands up to 2^521",
+         " Also decided (C side): addition/subtraction/comparison/multiplication words of bignum.c on all vectors of 1..3 words over {0,1,2^64-1,...}, Montgomery multiplication/inversion on boundary operands for 7 moduli, the bit-window and scatter/gather helpers, and monty_pow against pow() on small moduli. Python side: _mult_modulo_bytes, ceil_div, size, inverse, long_to_bytes/bytes_to_long rows; Integer-typed operands."),
+ "C16": ("", ""),
+ "C17": ("; foreign-handle rule (a native handle only reaches the library that made it); buffer-request flags; " + CEVAL + " bounds-checks every load/store of the rows it interprets (guard rows of the mode loops, EC scratch/tables sized from the curve)",
+         " Also decided: no point/key handle of one native library is passed to another; c_uint8_ptr/c_size_t usage flags; the interpreted C rows (modes, EC work space, generator tables) perform no out-of-bounds, use-after-free or uninitialised access."),
+ "C18": ("; selection helpers", " Also decided: sample/shuffle/choice and the DSA private-key draw on boundary tapes."),
+ "C19": ("; argument-mutation rule (no public entry writes through a caller's bytearray); " + CEVAL + ": keccak_copy and Edwards getters leave their source untouched",
+         " Also decided: no entry point mutates a caller-supplied mutable buffer or Integer; native copy/getter routines do not write to their source object."),
+}
+for _pid, (_t, _x) in EXTRA.items():
+    CLAIMS[_pid]["technique"] += _t
+    CLAIMS[_pid]["text"] += _x
+
+# statements of the first claim texts that the additions supersede
+for _pid, _old, _new in (
+    ("C07", " The branch-free accept/reject logic of pkcs1_decode.c is not decided.", ""),
+    ("C12", " Native fast paths (PBKDF2 assist, ROMix, EKSBlowfish) are not decided.", " scrypt's ROMix and the EKSBlowfish rounds (native) are not decided."),
+    ("C11", " Distinctness of counter blocks inside the C increment code is not decided.", ""),
+    ("C06", " Equality of the native group law with the mathematical one is not decided.", " Equality of the native group law with the mathematical one outside the case tables (full-length scalars, windowed ladders as a whole) is not decided."),
+    ("C03", " Digest values (C code) are not decided here.", " Digest values (compression functions, the Keccak permutation, BLAKE2, MD2/MD4) are not decided."),
+    ("C02", " Cipher tables and the C mode loops are the E-C part.", ""),
+    ("C09", " The C-side alias order of the mode loops is the E-C part.", ""),
+    ("C19", " The C-side half (no writable statics, read-only contexts, per-object scratch, whole-state *_copy) is the E-C part.", " C side: no writable statics, whole-state *_copy."),
+):
+    assert _old in CLAIMS[_pid]["text"], (_pid, _old)
+    CLAIMS[_pid]["text"] = CLAIMS[_pid]["text"].replace(_old, _new)
+
 NOT_YET = {}
 
 ALL = ["C%02d" % i for i in range(1, 21)]
